@@ -224,6 +224,7 @@ pub struct Pattern {
 impl Pattern {
     /// Parse an fnmatch()-style glob.
     pub fn new(pattern: &str, caseless: bool) -> Self {
+        super::fold_case_by_character();
         let options = if caseless {
             RegexOptions::REGEX_OPTION_IGNORECASE
         } else {
